@@ -169,9 +169,38 @@ def histRun (cfg : Cfg) : World → List Key → List HOpR → List Sexp
       | some _, none => .atom "unmodelled"
       | none, _ => .atom "U"
     here :: histRun cfg w' keys' ops
+/-- `C15 firstspec`: the specification side on a history — for every load what the walk over the
+    search path of that call comes to according to `firstOnPathF` (or `cached` when the model
+    answers from the cache) -/
+def specRun (cfg : Cfg) : World → List HOpR → List Sexp
+  | _, [] => []
+  | w, op :: ops =>
+    let (w', _) := hstepR Genshi.Gen.Loader.mtimeOfOpenedFile cfg w op
+    let here : Sexp := match op with
+      | .plain (.load r) =>
+        match resolve cfg.path.isEmpty r with
+        | none => .atom "unmodelled"
+        | some key =>
+          let hit := Genshi.Lru.alookup key w.ls.cache.items
+          if hit.isSome && (!cfg.autoReload || stillCurrent w.fs w.ls key) then .atom "cached" else
+          match searchPath cfg r key with
+          | none => .atom "nopath"
+          | some (entries, _) =>
+            match firstOnPathF w.fs r.fault key entries with
+            | .nothing => .atom "nothing"
+            | .raised => .atom "raised"
+            | .file loc f => .list [.atom "file", ofNat loc.dir, ofBool loc.sub, ofNat loc.base,
+                                    ofNat f.content, ofBool f.bad]
+      | _ => .atom "U"
+    here :: specRun cfg w' ops
 end
 
 def handle : List Sexp → Option Sexp
+  | [.atom "firstspec", cap, ar, cb, .list path, .list ops] => do
+      let cap ← cap.toNat?; let ar ← ar.toBool?; let cb ← cb.toBool?
+      let path ← path.mapM entry?
+      let ops ← ops.mapM hopR?
+      pure (.list (specRun ⟨path, ar, cap, cb⟩ (Genshi.Loader.World.init cap) ops))
   | [.atom "hist", cap, ar, cb, .list path, .list ops] => do
       let cap ← cap.toNat?; let ar ← ar.toBool?; let cb ← cb.toBool?
       let path ← path.mapM entry?
